@@ -8,13 +8,35 @@ import os
 from . import AnalysisError
 
 
+_MIRROR = {ast.Eq: ast.Eq, ast.NotEq: ast.NotEq, ast.Is: ast.Is,
+           ast.IsNot: ast.IsNot, ast.Lt: ast.Gt, ast.Gt: ast.Lt,
+           ast.LtE: ast.GtE, ast.GtE: ast.LtE}
+
+
+class _Normalise(ast.NodeTransformer):
+    """Spelling-independent form of the tree the rules look at: a constant
+    operand of a comparison is always on the right (`None is x` ->
+    `x is None`, `0 < n` -> `n > 0`)."""
+
+    def visit_Compare(self, node):
+        self.generic_visit(node)
+        if len(node.ops) == 1 and type(node.ops[0]) in _MIRROR and \
+                isinstance(node.left, ast.Constant) and not isinstance(
+                    node.comparators[0], ast.Constant):
+            new = ast.Compare(left=node.comparators[0],
+                              ops=[_MIRROR[type(node.ops[0])]()],
+                              comparators=[node.left])
+            return ast.copy_location(new, node)
+        return node
+
+
 class ModuleInfo:
     def __init__(self, name, path, relpath, source):
         self.name = name
         self.path = path
         self.relpath = relpath
         self.source = source
-        self.tree = ast.parse(source, filename=path)
+        self.tree = _Normalise().visit(ast.parse(source, filename=path))
         self.is_package = os.path.basename(path) == '__init__.py'
         self.imports = {}      # local name -> dotted qualified name
         self.functions = {}    # name -> FunctionInfo
